@@ -391,8 +391,8 @@ pub fn run(tier: &str, seed: u64) -> i32 {
         |c, ctx| check_case(c, ctx),
     );
     report.add(st);
-    if thorough {
-        match compile_tier(seed) {
+    {
+        match compile_tier(seed, !thorough) {
             Ok(st) => report.add(st),
             Err(e) => {
                 eprintln!("machinery error: compile farm: {e}");
@@ -401,7 +401,7 @@ pub fn run(tier: &str, seed: u64) -> i32 {
         }
     }
     report.assumptions = vec![
-        "clause (8) of the design (rustc as oracle) is covered by the compile farm of the thorough tier when enabled; the quick tier decides with the interpreter".into(),
+        "the clause `compiles under rustc` is decided by the compile farm (rustc itself, every distinct module of the listed drivers); the other clauses by the interpreter".into(),
         "registries are produced by the SPM elaborator (conformance-checked against real scale-info)".into(),
     ];
     report.finish()
@@ -416,14 +416,14 @@ pub fn replay(case: &Case) -> Vec<Violation> {
 
 /// Thorough tier: every distinct module the drivers produce under the compile profile is
 /// type-checked by rustc with the real parity-scale-codec derives.
-pub fn compile_tier(_seed: u64) -> Result<Stats, String> {
+pub fn compile_tier(_seed: u64, quick: bool) -> Result<Stats, String> {
     use crate::farm::*;
     use crate::families::*;
     use std::collections::HashSet;
     let profile = compile_profile();
     let mut progs: Vec<(String, Case)> = vec![];
     let a = DArms { max_depth: 2 };
-    let (all, _, _) = enumerate(&a, 2, 1_000_000);
+    let (all, _, _) = enumerate(&a, if quick { 1 } else { 2 }, 1_000_000);
     for (_, s) in &all {
         for (prog, pos) in arms_programs(&s.expr) {
             progs.push((format!("D-arms {pos}"), Case::new(RegSrc::Prog(prog), profile.clone(), "compile")));
@@ -463,11 +463,13 @@ pub fn compile_tier(_seed: u64) -> Result<Stats, String> {
         c.dedup = true;
         progs.push(("D-family".into(), c));
     }
-    let mut pk = profile.clone();
-    pk.root = "runtime_types".into();
-    let mut c = Case::new(RegSrc::Polkadot { retain: None }, pk, "compile");
-    c.dedup = true;
-    progs.push(("polkadot".into(), c));
+    if !quick {
+        let mut pk = profile.clone();
+        pk.root = "runtime_types".into();
+        let mut c = Case::new(RegSrc::Polkadot { retain: None }, pk, "compile");
+        c.dedup = true;
+        progs.push(("polkadot".into(), c));
+    }
     // generate, de-duplicate by token string
     let generated: Vec<Option<FarmCase>> = {
         use rayon::prelude::*;
@@ -509,7 +511,9 @@ pub fn compile_tier(_seed: u64) -> Result<Stats, String> {
     let res = compile(&cases, 16)?;
     let mut st = Stats {
         driver: format!(
-            "compile farm: rustc type-check (cargo check, parity-scale-codec 3.6.12 derives) of every distinct module of D-arms(depth<=2, all positions), D-graph(edges<=2), D-generic(depth<=1), D-family(depth<=4, de-duplicated), Polkadot under the compile profile, {} crates",
+            "compile farm: rustc type-check (cargo check, parity-scale-codec 3.6.12 derives) of every distinct module of D-arms(depth<={}, all positions), D-graph(edges<=2), D-generic(depth<=1), D-family(depth<=4, de-duplicated){} under the compile profile, {} crates",
+            if quick { 1 } else { 2 },
+            if quick { "" } else { ", Polkadot" },
             res.crates
         ),
         states: cases.len() as u64,
